@@ -212,6 +212,21 @@ impl ProbeCrate {
     }
 }
 
+/// Run a compiler command; a failure that carries no diagnostic at all (killed, empty
+/// stderr: seen on a heavily loaded machine) is repeated up to three times.
+pub fn run_compiler(mut make: impl FnMut() -> Command, timeout: Duration) -> ToolResult {
+    let mut r = run_tool(&mut make(), timeout);
+    for attempt in 0..3u64 {
+        let spurious = !r.ok && !r.timed_out && (r.signal.is_some() || !r.stderr.contains("error"));
+        if !spurious {
+            break;
+        }
+        std::thread::sleep(Duration::from_millis(500 * (attempt + 1)));
+        r = run_tool(&mut make(), timeout);
+    }
+    r
+}
+
 pub fn rustc_stable() -> Command {
     let mut c = Command::new("rustc");
     c.env("RUSTUP_TOOLCHAIN", "stable");
@@ -220,36 +235,46 @@ pub fn rustc_stable() -> Command {
 
 /// Type-check only (C13 stage A): `rustc --emit=metadata`.
 pub fn check_metadata(root: &Path, out_dir: &Path, lib: bool) -> ToolResult {
-    let mut c = rustc_stable();
-    c.arg("--edition=2021")
-        .arg("--emit=metadata")
-        .arg("--crate-type")
-        .arg(if lib { "lib" } else { "bin" })
-        .arg("--crate-name=probe")
-        .arg("-Awarnings")
-        .arg("--error-format=short")
-        .arg("--out-dir")
-        .arg(out_dir)
-        .arg(root);
-    run_tool(&mut c, Duration::from_secs(300))
+    run_compiler(
+        || {
+            let mut c = rustc_stable();
+            c.arg("--edition=2021")
+                .arg("--emit=metadata")
+                .arg("--crate-type")
+                .arg(if lib { "lib" } else { "bin" })
+                .arg("--crate-name=probe")
+                .arg("-Awarnings")
+                .arg("--error-format=short")
+                .arg("--out-dir")
+                .arg(out_dir)
+                .arg(root);
+            c
+        },
+        Duration::from_secs(300),
+    )
 }
 
 /// Native debug build with overflow and alignment checks on.
 pub fn build_native(root: &Path, out: &Path) -> ToolResult {
-    let mut c = rustc_stable();
-    c.arg("--edition=2021")
-        .arg("--crate-type=bin")
-        .arg("--crate-name=probe")
-        .arg("-Copt-level=0")
-        .arg("-Cdebug-assertions=on")
-        .arg("-Coverflow-checks=on")
-        .arg("-Cdebuginfo=1")
-        .arg("-Awarnings")
-        .arg("--error-format=short")
-        .arg("-o")
-        .arg(out)
-        .arg(root);
-    run_tool(&mut c, Duration::from_secs(600))
+    run_compiler(
+        || {
+            let mut c = rustc_stable();
+            c.arg("--edition=2021")
+                .arg("--crate-type=bin")
+                .arg("--crate-name=probe")
+                .arg("-Copt-level=0")
+                .arg("-Cdebug-assertions=on")
+                .arg("-Coverflow-checks=on")
+                .arg("-Cdebuginfo=1")
+                .arg("-Awarnings")
+                .arg("--error-format=short")
+                .arg("-o")
+                .arg(out)
+                .arg(root);
+            c
+        },
+        Duration::from_secs(600),
+    )
 }
 
 pub fn build_asan(root: &Path, out: &Path) -> ToolResult {
@@ -508,8 +533,11 @@ pub fn run_miri(crate_dir: &Path, last_step: u64, target_dir: &Path) -> RunLog {
         *n += 1;
     }
     let mut log = run_miri_once(crate_dir, last_step, target_dir);
-    if log.steps.is_empty() && log.reports.is_empty() && log.inconclusive.is_some() {
-        std::thread::sleep(Duration::from_secs(2));
+    for attempt in 0..3 {
+        if !(log.steps.is_empty() && log.reports.is_empty() && log.inconclusive.is_some()) {
+            break;
+        }
+        std::thread::sleep(Duration::from_secs(2 + attempt * 3));
         log = run_miri_once(crate_dir, last_step, target_dir);
     }
     {
